@@ -50,17 +50,41 @@ pub struct Nums {
     f: f64,
     si: [i64; 2],
     sf: [f64; 2],
+    so: OptSeq,
+}
+
+/// A sequence whose elements are numbers or nulls (what a captured `Vec<Option<i64>>` streams): numeric only if
+/// no element is null.
+pub struct OptSeq {
+    v: [Option<i64>; 2],
+}
+
+impl sval::Value for OptSeq {
+    fn stream<'sval, S: sval::Stream<'sval> + ?Sized>(&'sval self, stream: &mut S) -> sval::Result {
+        stream.seq_begin(Some(2))?;
+        let mut i = 0;
+        while i < 2 {
+            stream.seq_value_begin()?;
+            match self.v[i] {
+                Some(x) => stream.i64(x)?,
+                None => stream.null()?,
+            }
+            stream.seq_value_end()?;
+            i += 1;
+        }
+        stream.seq_end()
+    }
 }
 
 fn sym_nums() -> Nums {
-    let n = Nums { i: kani::any(), f: kani::any(), si: kani::any(), sf: kani::any() };
+    let n = Nums { i: kani::any(), f: kani::any(), si: kani::any(), sf: kani::any(), so: OptSeq { v: kani::any() } };
     // Summing +inf and -inf yields NaN; Kani's "NaN on addition" check flags that although it is
     // not a Rust panic (NaN data points are outside the routing property): excluded.
     kani::assume(!(n.sf[0].is_infinite() && n.sf[1].is_infinite()));
     n
 }
 
-/// value selector: 0 missing, 1 i64, 2 f64, 3 [i64; 2], 4 [f64; 2], 5 text, 6 bool
+/// value selector: 0 missing, 1 i64, 2 f64, 3 [i64; 2], 4 [f64; 2], 5 text, 6 bool, 7 sequence of numbers and nulls
 fn metric_value<'a>(v: u8, n: &'a Nums) -> Option<Value<'a>> {
     match v {
         0 => None,
@@ -69,12 +93,13 @@ fn metric_value<'a>(v: u8, n: &'a Nums) -> Option<Value<'a>> {
         3 => Some(Value::from(&n.si)),
         4 => Some(Value::from(&n.sf)),
         5 => Some(Value::from("x")),
-        _ => Some(Value::from(true)),
+        6 => Some(Value::from(true)),
+        _ => Some(Value::from_sval(&n.so)),
     }
 }
 
-fn is_numeric(v: u8) -> bool {
-    v >= 1 && v <= 4
+fn is_numeric(v: u8, n: &Nums) -> bool {
+    (v >= 1 && v <= 4) || (v == 7 && n.so.v[0].is_some() && n.so.v[1].is_some())
 }
 
 // ---- metrics ------------------------------------------------------------------------------
@@ -84,12 +109,12 @@ fn is_numeric(v: u8) -> bool {
 fn metrics_case<const K: u8, const V: u8, const TWIN: bool>() {
     let v: u8 = if V == 255 { kani::any() } else { V };
     let (a, x): (u8, u8) = (kani::any(), kani::any());
-    kani::assume(v <= 6 && a <= 3 && x <= 2);
+    kani::assume(v <= 7 && a <= 3 && x <= 2);
     let n = sym_nums();
     let props = Slots { s: [("evt_kind", kind_value::<K>()), ("metric_value", metric_value(v, &n)), ("metric_agg", agg_value(a))] };
     let evt = Event::new(Path::new_raw("m"), Template::literal("t"), extent_of(x), &props);
     let got = verif::metrics_accepts(&evt);
-    let want = is_metric(K) && is_numeric(v);
+    let want = is_metric(K) && is_numeric(v, &n);
     if TWIN {
         // mutant: "every metric-kinded event is accepted, whatever its value"
         assert!(got == is_metric(K), "MUTANT: metrics accepts iff kind = metric");
@@ -102,6 +127,8 @@ fn metrics_case<const K: u8, const V: u8, const TWIN: bool>() {
     kani::cover!(got == want && a == 3, "unknown aggregation");
     kani::cover!(got, "opt: accepted");
     kani::cover!(!got, "opt: declined");
+    kani::cover!(v == 7 && n.so.v[0].is_none() && n.so.v[1].is_none() && a == 2, "opt: all-null sequence with sum aggregation");
+    kani::cover!(v == 7 && n.so.v[0].is_some() && n.so.v[1].is_none(), "opt: sequence mixing a number and a null");
     core::mem::forget(evt);
     core::mem::forget(props);
 }
@@ -195,6 +222,8 @@ harness!(c14_t_metrics_text_seq_i64, [metrics_case::<2, 3, false>()]);
 harness!(c14_q_metrics_text_seq_f64, [metrics_case::<2, 4, false>()]);
 harness!(c14_q_metrics_text_textvalue, [metrics_case::<2, 5, false>()]);
 harness!(c14_t_metrics_text_boolvalue, [metrics_case::<2, 6, false>()]);
+// a sequence that is not numeric because some element is null (falls back to logs)
+harness!(c14_q_metrics_text_seq_with_nulls, [metrics_case::<2, 7, false>()]);
 // metrics, metric kind as captured `emit::Kind`
 harness!(captured c14_t_metrics_captured_missing, [metrics_case::<5, 0, false>()]);
 harness!(captured c14_t_metrics_captured_i64, [metrics_case::<5, 1, false>()]);
